@@ -633,7 +633,17 @@ impl ImageXObject {
                 }).unwrap_or(filters.len());
                 
                 let (normal_filters, image_filters) = filters.split_at(end);
-                let data = resolve.get_data_or_decode(id, file_range.clone(), normal_filters)?;
+                let data = if image_filters.is_empty() {
+                    resolve.get_data_or_decode(id, file_range.clone(), normal_filters)?
+                } else {
+                    // Partially decoded data must not share the stream cache entry of this object
+                    // with the fully decoded data that `Stream::data` stores under the same key.
+                    let mut data = resolve.stream_data(id, file_range.clone())?;
+                    for filter in normal_filters {
+                        data = t!(crate::enc::decode(&data, filter)).into();
+                    }
+                    data
+                };
         
                 match image_filters {
                     [] => Ok((data, None)),
